@@ -3,7 +3,8 @@
     [valid_text s] says that [s] is a list of Unicode scalar values, i.e. exactly what a Rust
     [String] can hold: it is the type of the input, not a restriction of the property.
     Only statements here; proofs live in theories/C10/Proofs.v. *)
-From OxVerif Require Import Base.Util C09.Model C10.Spec C10.Model C10.Proofs.
+From OxVerif Require Import Base.Util C09.Model C25.Model C10.Spec C10.Model C10.Proofs C10.Decode.
+From OxGen Require Import Encodings.
 
 (** whole-document writer (Info x6, outline /Title, annotation /Contents, field /V): the library
     reads the written object back as the same text, whatever follows it in the file *)
@@ -75,6 +76,99 @@ Theorem c10_iso_hex_ser : forall s rest, bytes_ok s = true -> iso_hex (ser_hex s
 Proof. exact iso_hex_ser. Qed.
 Check c10_iso_hex_ser : forall s rest, bytes_ok s = true -> iso_hex (ser_hex s ++ 62 :: rest) None = Some (s, rest).
 Print Assumptions c10_iso_hex_ser.
+
+(** * The reader on ARBITRARY byte strings (channel [dec]); proofs in theories/C10/Decode.v.
+    [bytes_ok b] = every element is below 256 = the type [&[u8]], not a restriction.
+    [decode_text] is total (a Gallina function); its value is a Rust [String]: scalar values only *)
+Theorem c10_decode_text_total : forall b, bytes_ok b = true -> exists t, decode_text b = t /\ valid_text t = true /\ (length t <= length b)%nat.
+Proof. exact decode_text_total. Qed.
+Check c10_decode_text_total : forall b, bytes_ok b = true -> exists t, decode_text b = t /\ valid_text t = true /\ (length t <= length b)%nat.
+Print Assumptions c10_decode_text_total.
+
+(** FE FF prefix: exactly std's [String::from_utf16_lossy] over [chunks_exact(2)] + [from_be_bytes]
+    ([std_decode_bom]: index-written chunking, the [DecodeUtf16 {iter, buf}] state machine, U+FFFD for
+    every [Err]); an odd final byte is in no chunk *)
+Theorem c10_decode_bom_is_utf16_lossy : forall r, decode_text (bom ++ r) = std_decode_bom r.
+Proof. exact decode_bom_is_utf16_lossy. Qed.
+Check c10_decode_bom_is_utf16_lossy : forall r, decode_text (bom ++ r) = std_decode_bom r.
+Print Assumptions c10_decode_bom_is_utf16_lossy.
+
+Theorem c10_utf16_lossy_is_std : forall v, utf16_lossy v = std_from_utf16_lossy v.
+Proof. exact utf16_lossy_is_std. Qed.
+Check c10_utf16_lossy_is_std : forall v, utf16_lossy v = std_from_utf16_lossy v.
+Print Assumptions c10_utf16_lossy_is_std.
+
+Theorem c10_units_is_std_units : forall b, units b = std_units b.
+Proof. exact units_is_std_units. Qed.
+Check c10_units_is_std_units : forall b, units b = std_units b.
+Print Assumptions c10_units_is_std_units.
+
+(** no BOM (shorter than two bytes or not starting FE FF): byte-wise through the generated table *)
+Theorem c10_decode_single_byte_is_table : forall b, has_bom b = false -> decode_text b = List.map (dec_table win_dec_char win_dec_char_default) b /\ length (decode_text b) = length b.
+Proof. exact decode_single_byte_is_table. Qed.
+Check c10_decode_single_byte_is_table : forall b, has_bom b = false -> decode_text b = List.map (dec_table win_dec_char win_dec_char_default) b /\ length (decode_text b) = length b.
+Print Assumptions c10_decode_single_byte_is_table.
+
+(** the library-shaped and the ISO-shaped reader where both are defined *)
+Theorem c10_readers_agree_on_bom : forall r t, spec_decode (bom ++ r) = Some t -> decode_text (bom ++ r) = t.
+Proof. exact readers_agree_on_bom. Qed.
+Check c10_readers_agree_on_bom : forall r t, spec_decode (bom ++ r) = Some t -> decode_text (bom ++ r) = t.
+Print Assumptions c10_readers_agree_on_bom.
+
+Theorem c10_iso_bom_defined_iff : forall r t, spec_decode (bom ++ r) = Some t <-> Nat.even (length r) = true /\ utf16_strict (units r) = Some t.
+Proof. exact iso_bom_defined_iff. Qed.
+Check c10_iso_bom_defined_iff : forall r t, spec_decode (bom ++ r) = Some t <-> Nat.even (length r) = true /\ utf16_strict (units r) = Some t.
+Print Assumptions c10_iso_bom_defined_iff.
+
+Theorem c10_readers_agree_on_same_cells : forall p, has_bom p = false -> forallb same_cell p = true -> spec_decode p = Some (decode_text p).
+Proof. exact readers_agree_on_same_cells. Qed.
+Check c10_readers_agree_on_same_cells : forall p, has_bom p = false -> forallb same_cell p = true -> spec_decode p = Some (decode_text p).
+Print Assumptions c10_readers_agree_on_same_cells.
+
+(** the predicate the [dec] channel evaluates *)
+Theorem c10_readers_agree_on_agree : forall p t, agree p = true -> spec_decode p = Some t -> decode_text p = t.
+Proof. exact readers_agree_on_agree. Qed.
+Check c10_readers_agree_on_agree : forall p t, agree p = true -> spec_decode p = Some t -> decode_text p = t.
+Print Assumptions c10_readers_agree_on_agree.
+
+(** ... and exactly where they differ: without BOM, on the cells of [differ_cells] (0x18..0x1F,
+    0x80..0x9B, 0x9D, 0xA0), each of which lies in the class of C25's recorded finding
+    C25-pdfdoc-textstring-winansi ([c25_pdfdoc_matches_refuted]) *)
+Theorem c10_readers_differ_exactly : forall p t, has_bom p = false -> spec_decode p = Some t -> (decode_text p = t <-> forallb same_cell p = true).
+Proof. exact readers_differ_exactly. Qed.
+Check c10_readers_differ_exactly : forall p t, has_bom p = false -> spec_decode p = Some t -> (decode_text p = t <-> forallb same_cell p = true).
+Print Assumptions c10_readers_differ_exactly.
+
+Theorem c10_same_cell_exactly : forall b, same_cell b = false <-> pdfdoc_char b = None \/ In b differ_cells.
+Proof. exact same_cell_exactly. Qed.
+Check c10_same_cell_exactly : forall b, same_cell b = false <-> pdfdoc_char b = None \/ In b differ_cells.
+Print Assumptions c10_same_cell_exactly.
+
+Theorem c10_differ_cells_in_c25_class : forall b, In b differ_cells -> known_class 15 b = 5.
+Proof. exact differ_cells_in_c25_class. Qed.
+Check c10_differ_cells_in_c25_class : forall b, In b differ_cells -> known_class 15 b = 5.
+Print Assumptions c10_differ_cells_in_c25_class.
+
+Theorem c10_readers_agree_unless_differ_cell : forall p t, spec_decode p = Some t -> decode_text p = t \/ (has_bom p = false /\ exists b, In b p /\ In b differ_cells).
+Proof. exact readers_agree_unless_differ_cell. Qed.
+Check c10_readers_agree_unless_differ_cell : forall p t, spec_decode p = Some t -> decode_text p = t \/ (has_bom p = false /\ exists b, In b p /\ In b differ_cells).
+Print Assumptions c10_readers_agree_unless_differ_cell.
+
+(** the [dec] channel: output = model implies the channel's property predicate (code 0) *)
+Theorem c10_dec_prop_follows_from_model : forall p r, otext_eqb (option_map of_utf8 r) (Some (decode_text p)) = true -> dec_code (p, r) = 0.
+Proof. exact dec_prop_follows_from_model. Qed.
+Check c10_dec_prop_follows_from_model : forall p r, otext_eqb (option_map of_utf8 r) (Some (decode_text p)) = true -> dec_code (p, r) = 0.
+Print Assumptions c10_dec_prop_follows_from_model.
+
+(** hypotheses satisfiable / the disagreement is real *)
+Example c10_agree_samples :
+  agree (bom ++ [216; 61; 222; 0; 0; 241]) = true /\
+  spec_decode (bom ++ [216; 61; 222; 0; 0; 241]) = Some [128512; 241] /\
+  agree [65; 241; 156; 255] = true /\ has_bom [65; 241; 156; 255] = false /\
+  spec_decode [65; 241; 156; 255] = Some [65; 241; 339; 255] /\
+  decode_text [65; 241; 156; 255] = [65; 241; 339; 255] /\
+  agree [65; 128] = false /\ spec_decode [65; 128] = Some [65; 8226] /\ decode_text [65; 128] = [65; 8364].
+Proof. exact agree_samples. Qed.
 
 (** * The behaviour before the repair (bare UTF-8 in a literal string): what held, what did not.
     These keep the reason for [Object::text_string] machine-checked. *)
